@@ -182,6 +182,12 @@ func c10Builtins(t *zsim.Tape, w *zsim.World, d *zsim.Disk, sc *c10Scenario, out
 	if enum != nil {
 		handler = enum.handler
 	}
+	hasMem := false
+	if enum == nil && t.Draw(4) == 3 {
+		// a directory entry whose name is not UTF-8 (names are bytes on a POSIX file system)
+		sc.Files["/data/caf\xe9"] = "x"
+		d.Put("/data/caf\xe9", []byte("x"))
+	}
 	var lines []string
 	lines = append(lines, "导入《@文件》", "")
 	for i, op := range ops {
@@ -192,6 +198,17 @@ func c10Builtins(t *zsim.Tape, w *zsim.World, d *zsim.Disk, sc *c10Scenario, out
 		switch op.direct {
 		case 0:
 			lines = append(lines, fmt.Sprintf("令R%d = %s", i, call), fmt.Sprintf("（显示：“op%d”、R%d）", i, i))
+			// what came from the disk is then USED: members of the text / list that was read
+			if enum == nil && op.kind != "写入文件" && t.Draw(3) == 2 {
+				hasMem = true
+				var use string
+				if op.kind == "读取文件" {
+					use = pick(t, []string{"R%d 之 字符组", "R%d 之 长度", "R%d 之 字数", "以R%d（取样：1、2）", "以R%d（分隔：“，”）", "以R%d（去除空格）", "以R%d（转换数值）", "以R%d（拼接：“尾”）"})
+				} else {
+					use = pick(t, []string{"以R%d（拼接：“、”）", "R%d 之 数目", "R%d 之 首项", "（R%d 之 首项） 之 字符组", "（R%d 之 末项） 之 长度", "R%d 之 逆序"})
+				}
+				lines = append(lines, "（显示：“mem”、"+fmt.Sprintf(use, i)+"）")
+			}
 		case 1:
 			lines = append(lines, fmt.Sprintf("（显示：“op%d”、%s）", i, call))
 		case 2:
@@ -289,6 +306,11 @@ func c10Builtins(t *zsim.Tape, w *zsim.World, d *zsim.Disk, sc *c10Scenario, out
 		}
 	}
 	sc.Expected = fmt.Sprintf("display=%q result=%q", expDisp, expResult)
+	if !faulted && hasMem {
+		// members applied to what was read: their exact text is outside this narrow claim; the
+		// outcome must still be a value or a Zn error (checked above: no panic, no nil element)
+		return out
+	}
 	if !faulted {
 		if !dispMatch(res.Display, expDisp) {
 			return fail("builtin:wrong-display", fmt.Sprintf("fault-free run: displayed %q, reference model expects %q", res.Display, expDisp))
